@@ -30,7 +30,26 @@ def sm_cfg(krng, tier):
     return cfg
 
 
+def hard_search_case(rs, tier):
+    """A search that has to back-track a lot: three or four levels per factor and a transition factor, all crossed
+    (25-37 trials).  The branches of SMGen's search that only run after many back-steps are reached here."""
+    brng = W.stream(rs, "hard-design")
+    nc, nw = brng.choice([(4, 4), (4, 4), (3, 3), (4, 3)])
+    color = {"id": "f0", "kind": "basic", "name": "color", "levels": [["c%d" % i, 1] for i in range(nc)]}
+    word = {"id": "f1", "kind": "basic", "name": "word", "levels": [["w%d" % i, 1] for i in range(nw)]}
+    names = [n for n, _ in color["levels"]]
+    rep = {"id": "d1", "kind": "derived", "name": "repeat", "window": {"kind": "transition", "width": 2, "stride": 1, "start": 1},
+           "args": ["f0"], "levels": [{"name": "rep", "weight": 1, "table": [[[a, a]] for a in names]},
+                                       {"name": "sw", "weight": 1, "table": [[[a, b]] for a in names for b in names if a != b]}]}
+    ast = {"factors": [color, word, rep], "block": {"kind": "cross", "design": ["f0", "f1", "d1"], "crossing": ["f0", "f1", "d1"], "constraints": [], "rcc": True}}
+    knobs = common.draw_knobs(W.stream(rs, "knobs"))
+    return {"designs": [ast], "calls": [{"design": 0, "n": brng.choice([2, 3]), "abort_at": None}], "knobs": knobs, "hard": True, "timeout": 150,
+            "timer": {"mode": "clock-fast", "fire_after": None, "dt": 1e-6, "delivery": "thread"}}
+
+
 def gen_case(rs, tier):
+    if W.stream(rs, "hard").random() < (0.004 if tier == "thorough" else 0.002):
+        return hard_search_case(rs, tier)
     krng = W.stream(rs, "knobs")
     hrng = W.stream(rs, "history")
     ncalls = hrng.choice([1, 1, 2, 2, 3, 4])
@@ -69,7 +88,9 @@ def run_case(case):
     tm = case["timer"]
     import sweetpea as sp
     with W.SimWorld(case["run_seed"], case["knobs"]) as w:
-        sm = smworld.SMWorld(w, dt=tm["dt"], delivery=tm["delivery"], fire_after=tm["fire_after"], line_cap=200000)
+        sm = smworld.SMWorld(w, dt=tm["dt"], delivery=tm["delivery"], fire_after=tm["fire_after"], line_cap=200000 if not case.get("hard") else 60_000_000)
+        if case.get("hard"):
+            w.log_cap = 5000
         sm.install()
         blocks = {}
         viols = []
